@@ -19,8 +19,9 @@ def sequences(pid):
     prefixes = set()
     for h in hl:
         for i in range(1, len(h)):
-            prefixes.add(json.dumps(h[:i]))
-    maximal = sorted((h for h in hl if json.dumps(h) not in prefixes), key=json.dumps)
+            prefixes.add(json.dumps(h[:i], sort_keys=True))
+    # (TLC prints the fields of a freshly built record in construction order and those of a stored one sorted: compare canonically)
+    maximal = sorted((h for h in hl if json.dumps(h, sort_keys=True) not in prefixes), key=lambda x: json.dumps(x, sort_keys=True))
     return maximal, r, len(hl)
 
 
